@@ -214,6 +214,18 @@ fn gen_token(repo: &Path, out: &Path) {
     writeln!(s, "def U64_BYTES : Nat := 8").unwrap();
     writeln!(s, "def TOKEN_ID : Bytes := {}", lean_bytes(&declare_id(&tok.items, &[], "token.rs"))).unwrap();
     writeln!(s, "def TOKEN_2022_ID : Bytes := {}", lean_bytes(&declare_id(&t22.items, &[], "token_2022.rs"))).unwrap();
+    // the native mint: its id and the canned 82-byte account data (a byte-array literal)
+    writeln!(s, "def NATIVE_MINT_ID : Bytes := {}", lean_bytes(&declare_id(&tok.items, &["native_mint"], "token.rs"))).unwrap();
+    let arr = env.get("native_mint::ACCOUNT_DATA").unwrap_or_else(|| fail("const native_mint::ACCOUNT_DATA not found in token.rs"));
+    let bytes: Vec<u8> = match arr {
+        syn::Expr::Array(a) => a.elems.iter().map(|e| {
+            let v = eval(e, &env).unwrap_or_else(|| fail("native_mint::ACCOUNT_DATA: element not evaluable"));
+            if !(0..=255).contains(&v) { fail("native_mint::ACCOUNT_DATA: element out of byte range") }
+            v as u8
+        }).collect(),
+        _ => fail("native_mint::ACCOUNT_DATA is not an array literal"),
+    };
+    writeln!(s, "def NATIVE_MINT_ACCOUNT_DATA : Bytes := {}", lean_bytes(&bytes)).unwrap();
     writeln!(s, "end Gen.Token").unwrap();
     write_if_changed(&out.join("TokenConsts.lean"), &s);
 }
